@@ -38,19 +38,37 @@ Arguments cnt_last : simpl never.
 Lemma pheld_pnotify p : pheld (pnotify p) = pheld p.
 Proof. destruct p as [| | | | | |j [|]|[|]| | |]; reflexivity. Qed.
 
+Definition pk (p : ppc) : nat :=
+  match p with P_absent => 0 | P_new => 1 | P_done => 2 | P_raised => 3 | P_cancelled => 4 | _ => 5 end.
+Lemma pk_pnotify p : pk (pnotify p) = pk p.
+Proof. destruct p as [| | | | | |j [|]|[|]| | |]; reflexivity. Qed.
+
+Lemma pk_inv p :
+  match pk p with 0 => p = P_absent | 1 => p = P_new | 2 => p = P_done | 3 => p = P_raised | 4 => p = P_cancelled
+             | _ => True end.
+Proof. destruct p; cbn; auto. Qed.
+Ltac pkinv :=
+  repeat match goal with
+         | H : pk ?p = 0 |- _ => let X := fresh in pose proof (pk_inv p) as X; rewrite H in X; clear H
+         | H : pk ?p = 1 |- _ => let X := fresh in pose proof (pk_inv p) as X; rewrite H in X; clear H
+         | H : pk ?p = 2 |- _ => let X := fresh in pose proof (pk_inv p) as X; rewrite H in X; clear H
+         | H : pk ?p = 3 |- _ => let X := fresh in pose proof (pk_inv p) as X; rewrite H in X; clear H
+         | H : pk ?p = 4 |- _ => let X := fresh in pose proof (pk_inv p) as X; rewrite H in X; clear H
+         end.
+
 Record Ns (t : nat) (s : state) : Prop := {
-  ns_a : pstate s <> St_running -> mainpc s <> M_new -> (prod s = P_done /\ unfinished s = 0) \/ prod s = P_raised;
+  ns_a : pstate s <> St_running -> mainpc s <> M_new -> (pk (prod s) = 2 /\ unfinished s = 0) \/ pk (prod s) = 3;
   ns_b : prod_cancel s = false;
-  ns_b' : prod s <> P_cancelled;
-  ns_c : mainpc s = M_returned -> prod s = P_done;
-  ns_d : next_item s = 1 + pheld (prod s) + unfinished s + cnt_last t (log s);
-  ns_f : pstate s = St_running -> prod s = P_absent \/ prod s = P_new \/ prod_running s = true;
-  ns_g : mainpc s = M_new -> prod s = P_absent
+  ns_b' : pk (prod s) <> 4;
+  ns_c : mainpc s = M_returned -> pk (prod s) = 2;
+  ns_d : 0 < t -> next_item s = 1 + pheld (prod s) + unfinished s + cnt_last t (log s);
+  ns_f : pstate s = St_running -> pk (prod s) = 0 \/ pk (prod s) = 1 \/ prod_running s = true;
+  ns_g : mainpc s = M_new -> pk (prod s) = 0
 }.
 
 Ltac nsclause :=
-  cbn; intros; rewrite ?cnt_last_cons, ?pheld_pnotify in *; cbn [b2n is_last pheld] in *; hyps;
-  try match goal with H : prod _ = _ |- _ => rewrite H in *; cbn [pheld] in * end;
+  cbn; intros; rewrite ?cnt_last_cons, ?pheld_pnotify, ?pk_pnotify in *; cbn [b2n is_last pheld pk] in *; hyps;
+  try match goal with H : prod _ = _ |- _ => rewrite H in *; cbn [pheld pk] in * end;
   first [congruence | lia | tauto | (left; split; first [congruence|lia]) | (right; congruence)
         | (right; left; congruence) | (right; right; congruence)
         | intuition (first [congruence|lia]) | idtac].
@@ -59,7 +77,7 @@ Ltac hyps2 :=
                 | H : ?a <> ?b -> _, H' : ?a = ?c |- _ => specialize (H ltac:(rewrite H'; discriminate))
                 end; hyps).
 Ltac nsfin :=
-  cbn in *; hyps2; repeat match goal with H : _ \/ _ |- _ => destruct H end; hyps;
+  cbn in *; hyps2; repeat match goal with H : _ \/ _ |- _ => destruct H end; hyps; pkinv;
   try (match goal with H : prod _ = _ |- _ => rewrite H in *; cbn in * end);
   first [discriminate | congruence | constructor; nsclause].
 
@@ -68,4 +86,120 @@ Proof.
   intros St C [A B B' Cc D F G]. pose proof (st_sd _ St) as SD. pose proof (st_new _ St) as SN.
   unfold main_step, main_loop, sd_after_workers, finish_prod, spawn. brk2; intros H; inversion H; subst; clear H.
   all: nsfin.
+Qed.
+
+Lemma ns_prod_step t s s' : Stp s -> Ctl s -> Ns t s -> prod_step s = Some s' -> Ns t s'.
+Proof.
+  intros St C [A B B' Cc D F G]. pose proof (st_sd _ St) as SD. pose proof (st_new _ St) as SN.
+  pose proof (c3 _ C) as C3. pose proof (c6 _ C) as C6.
+  unfold prod_step, prod_put, prod_loop, pipeline_stop. brk2; intros H; inversion H; subst; clear H.
+  all: nf2; brk2; nsfin.
+Qed.
+
+Lemma ns_worker_step t w s s' : Safe t s -> Qi s -> Ns t s -> worker_step t w s = Some s' -> Ns t s'.
+Proof.
+  intros Sf Q [A B B' Cc D F G]. unfold worker_step.
+  destruct (wpc_at (workers s) w) as [p|] eqn:EA; [|discriminate].
+  destruct p as [| | | |i k|i k|i k| |]; try discriminate.
+  1-3: unfold worker_get; brk2; intros H; inversion H; subst; clear H; nf2; cbn; nf2; nsfin.
+  - destruct (sf_held _ _ Sf _ _ _ _ EA eq_refl) as [Kt _].
+    assert (UP : 0 < unfinished s).
+    { destruct (wpc_at_nth _ _ _ EA) as [x [Ex Px]]. pose proof (q_c9 _ Q) as E9.
+      assert (0 < countw holder (workers s)) by (eapply holder_le; eauto; unfold holder; now rewrite Px). lia. }
+    destruct (S k <? t) eqn:T.
+    + apply Nat.ltb_lt in T. assert (EQ : (S k =? t) = false) by (apply Nat.eqb_neq; lia).
+      intros H; inversion H; subst; clear H. constructor; cbn; rewrite ?cnt_last_cons; cbn [is_last b2n End_ Start]; rewrite ?EQ; auto.
+    + apply Nat.ltb_ge in T. assert (EQ : (S k =? t) = true) by (apply Nat.eqb_eq; lia).
+      unfold worker_get; brk2; intros H; inversion H; subst; clear H; nf2; cbn in *; nf2;
+        (constructor; cbn; rewrite ?cnt_last_cons, ?pheld_pnotify, ?pk_pnotify; cbn [is_last b2n End_ Start]; rewrite ?EQ; cbn [b2n];
+         try tauto; try congruence; try lia; try (intuition (first [congruence|lia]))).
+  - intros H; inversion H; subst; clear H. constructor; cbn; auto.
+Qed.
+
+Lemma ns_env_step t s l s' :
+  internal l = false -> l <> E_stop -> Stp s -> Ns t s -> step t s l = Some s' -> Ns t s'.
+Proof.
+  intros IL NS St [A B B' Cc D F G]. pose proof (st_new _ St) as SN.
+  destruct l; try discriminate IL; try (now elim NS); cbn [step]; unfold set_concurrency;
+    brk2; intros H; inversion H; subst; clear H.
+  all: nf2; brk2; cbn; nf2; brk2; nsfin.
+Qed.
+
+Lemma ns_init t n c : Ns t (init n c).
+Proof. constructor; cbn; auto; try discriminate; intros; congruence. Qed.
+
+Theorem ns_reachable t n c s : reachable_ns t n c s -> Ns t s.
+Proof.
+  induction 1 as [|s l s' R IH NS H]; [apply ns_init|].
+  pose proof (reachable_ns_reachable _ _ _ _ R) as R'.
+  pose proof (safe_reachable _ _ _ _ R') as Sf. pose proof (stp_reachable _ _ _ _ R') as St.
+  pose proof (qi_reachable _ _ _ _ R') as Q. pose proof (ctl_reachable _ _ _ _ R') as C.
+  destruct (internal l) eqn:IL.
+  - destruct l; try discriminate IL; cbn [step] in H.
+    + eapply ns_main_step; eauto.
+    + eapply ns_prod_step; eauto.
+    + eapply ns_worker_step; eauto.
+  - apply (ns_env_step t s l s'); assumption.
+Qed.
+
+
+(* ---- counting argument ---------------------------------------------------------------------------------- *)
+Lemma done_upto_all i m k : k < m -> In (Start i k) (done_upto i m) /\ In (End_ i k) (done_upto i m).
+Proof.
+  induction m as [|m IH]; [lia|]. intros L. rewrite done_upto_S.
+  destruct (Nat.eq_dec k m) as [->|N].
+  - split; [right; now left|now left].
+  - destruct IH as [A B]; [lia|]. split; right; right; assumption.
+Qed.
+
+Lemma nodup_map_inj {A B} (f : A -> B) l :
+  NoDup l -> (forall a b, In a l -> In b l -> f a = f b -> a = b) -> NoDup (map f l).
+Proof.
+  induction 1 as [|x l Nx ND IH]; intros Inj; [constructor|]. cbn. constructor.
+  - intros I. apply in_map_iff in I. destruct I as [y [E Iy]]. apply Nx.
+    rewrite (Inj x y); auto; [now left|now right].
+  - apply IH. intros a b Ia Ib. apply Inj; now right.
+Qed.
+
+Lemma is_last_inv t e : is_last t e = true -> exists i k, e = End_ i k /\ S k = t.
+Proof. destruct e as [[|] i k]; cbn; [discriminate|]. intros H. apply Nat.eqb_eq in H. eauto. Qed.
+
+Theorem exactly_once t n c ls s :
+  run t (init n c) ls = Some s -> ~ In E_stop ls -> mainpc s = M_returned ->
+  prod s = P_done /\ unfinished s = 0 /\
+  forall i k, 1 <= i < next_item s -> k < t -> In (Start i k) (log s) /\ In (End_ i k) (log s).
+Proof.
+  intros Hr NS MR. pose proof (run_reachable_ns _ _ _ _ _ Hr NS) as RN.
+  pose proof (reachable_ns_reachable _ _ _ _ RN) as R.
+  pose proof (safe_reachable _ _ _ _ R) as Sf. pose proof (ctl_reachable _ _ _ _ R) as C.
+  pose proof (ns_reachable _ _ _ _ RN) as N.
+  pose proof (ns_c _ _ N MR) as P2. pose proof (pk_inv (prod s)) as PI. rewrite P2 in PI.
+  assert (NR : pstate s <> St_running) by (apply (c6 _ C); now rewrite PI).
+  assert (NN : mainpc s <> M_new) by congruence.
+  destruct (ns_a _ _ N NR NN) as [[_ U]|P3]; [|rewrite P2 in P3; discriminate].
+  split; [exact PI|]. split; [exact U|]. intros i k Hi Hk.
+  assert (T0 : 0 < t) by lia.
+  pose proof (ns_d _ _ N T0) as D. rewrite PI, U in D. cbn [pheld] in D.
+  set (F := filter (is_last t) (log s)) in *. set (L := map item_of F).
+  assert (LL : length L = next_item s - 1) by (unfold L; rewrite map_length; unfold cnt_last in D; fold F in D; lia).
+  assert (ND : NoDup L).
+  { apply nodup_map_inj; [apply NoDup_filter, (log_nodup _ _ Sf)|].
+    intros a b Ia Ib E. apply filter_In in Ia, Ib. destruct Ia as [_ Ia], Ib as [_ Ib].
+    destruct (is_last_inv _ _ Ia) as [ia [ka [-> Ea]]], (is_last_inv _ _ Ib) as [ib [kb [-> Eb]]].
+    cbn in E. subst ib. f_equal. lia. }
+  assert (IN : incl L (seq 1 (next_item s - 1))).
+  { intros j Ij. apply in_map_iff in Ij. destruct Ij as [e [<- Ie]]. apply filter_In in Ie. destruct Ie as [Ie _].
+    destruct e as [b j k']. destruct (log_event_range _ _ Sf _ _ _ Ie) as [Rj _]. cbn. apply in_seq. lia. }
+  assert (ALL : incl (seq 1 (next_item s - 1)) L).
+  { apply NoDup_length_incl; [exact ND|rewrite seq_length; lia|exact IN]. }
+  assert (Ii : In i L) by (apply ALL, in_seq; lia).
+  apply in_map_iff in Ii. destruct Ii as [e [Ei Ie]]. apply filter_In in Ie. destruct Ie as [Ie Le].
+  destruct (is_last_inv _ _ Le) as [i' [k' [-> Ek]]]. cbn in Ei. subst i'.
+  assert (Ip : In (End_ i k') (proj i (log s))) by (apply proj_in; split; [exact Ie|reflexivity]).
+  assert (SH : proj i (log s) = done_upto i t).
+  { destruct (safe_shape _ _ Sf i) as [m [Hm [E|[Hm' E]]]]; rewrite E in Ip.
+    - apply done_upto_in in Ip. cbn in Ip. assert (m = t) by lia. now subst m.
+    - destruct Ip as [X|Ip]; [discriminate|]. apply done_upto_in in Ip. cbn in Ip. lia. }
+  destruct (done_upto_all i t k Hk) as [A B]. rewrite <- SH in A, B.
+  apply proj_in in A, B. tauto.
 Qed.
